@@ -1,25 +1,37 @@
 #!/bin/sh
-# Run once after a fresh restore, offline: warms the Go build cache for the harness.
-set -e
+# Run once after a fresh restore, offline: generates the harness module files and warms the Go
+# build cache for the packages of the registered checks (plain and, for C16, race builds).
 cd "$(dirname "$0")"
 export GOFLAGS=-mod=mod GOPROXY=off
 unset GOTOOLCHAIN GOSUMDB
 python3 - <<'PY'
-import sys, os
-sys.path.insert(0, os.getcwd())
+import sys, os, json, glob, subprocess
 import importlib.machinery, importlib.util
-loader = importlib.machinery.SourceFileLoader("check", os.path.join(os.getcwd(), "check"))
+root = os.getcwd()
+loader = importlib.machinery.SourceFileLoader("check", os.path.join(root, "check"))
 spec = importlib.util.spec_from_loader("check", loader)
 mod = importlib.util.module_from_spec(spec)
 loader.exec_module(mod)
-mod.gen_module()
+out = os.path.join(root, ".build", "setup")
+os.makedirs(out, exist_ok=True)
+modfile = mod.gen_module(out)
+enabled = set(open(os.path.join(root, "enabled_checks.txt")).read().split())
+pkgs = {}
+for pid, cfg in mod.CHECKS.items():
+    if pid in enabled:
+        pkgs[(cfg["pkg"], bool(cfg.get("race")))] = True
+rc = 0
+for (pkg, race) in sorted(pkgs):
+    cmd = ["go", "test", "-c", "-vet=off", "-tags", "verif", "-modfile=" + modfile, "-o", os.path.join(out, pkg + ".test")]
+    if race:
+        cmd.append("-race")
+    cmd.append("./" + pkg)
+    p = subprocess.run(cmd, cwd=os.path.join(root, "harness"), env=mod.goenv())
+    if p.returncode != 0:
+        print("setup: build of", pkg, "failed")
+        rc = 1
+import shutil
+shutil.rmtree(out, ignore_errors=True)
+print("setup ok" if rc == 0 else "setup finished with build failures")
+sys.exit(rc)
 PY
-cd harness
-mkdir -p ../.build/setup
-for p in $(ls -d */ | tr -d /); do
-  if [ -f "$p/check.json" ]; then
-    go test -c -vet=off -tags verif -o ../.build/setup/$p.test ./$p || exit 1
-  fi
-done
-rm -rf ../.build/setup
-echo setup ok
